@@ -1953,7 +1953,7 @@ BTree_byValue(BTree *self, PyObject *omin)
 
     COPY_VALUE_FROM_ARG(min, omin, copied);
     UNLESS(copied)
-        return NULL;
+        goto err;
 
     UNLESS (r=PyList_New(0))
         goto err;
